@@ -71,6 +71,14 @@ class Rewriter(ast.NodeTransformer):
             return ast.copy_location(ast.Call(ast.Name('_sx_getitem', ast.Load()), [node.value, sl], []), node)
         return node
 
+    def visit_Assign(self, node):
+        self.generic_visit(node)
+        # d[k] = v  ->  _sx_setitem(d, k, v): a symbolic dict key is made concrete (fork by value) before it is stored
+        if len(node.targets) == 1 and isinstance(node.targets[0], ast.Subscript) and not isinstance(node.targets[0].slice, (ast.Slice, ast.Tuple)):
+            t = node.targets[0]
+            return ast.copy_location(ast.Expr(ast.Call(ast.Name('_sx_setitem', ast.Load()), [t.value, t.slice, node.value], [])), node)
+        return node
+
     def visit_BinOp(self, node):
         self.generic_visit(node)
         if isinstance(node.op, ast.Mod):
@@ -132,6 +140,7 @@ def instrument(src, path, modname):
 def inject(d):
     d['_sx_getitem'] = core.sx_getitem
     d['_sx_mod'] = core.sx_mod
+    d['_sx_setitem'] = core.sx_setitem
     d['_sx_contains'] = core.sx_contains
     d['_sx_callm'] = core.sx_callm
     d['_sx_not'] = _sx_not
